@@ -14,6 +14,6 @@ VARIABLE i
 Init == i = 0
 Next == i < Len(Progs) /\ i' = i + 1
 Report == i > 0 => PrintT(<<"IRRUN", ToJson([id |-> Progs[i].id,
-                                              mono |-> Run(Progs[i].ir.mono), lift |-> Run(Progs[i].ir.lift), anf |-> Run(Progs[i].ir.anf)])>>)
+                                              core |-> Run(Progs[i].ir.core), mono |-> Run(Progs[i].ir.mono), lift |-> Run(Progs[i].ir.lift), anf |-> Run(Progs[i].ir.anf)])>>)
 Done == i = Len(Progs) => PrintT(<<"IRRUNDONE", ToJson([n |-> Len(Progs)])>>)
 =============================================================================
